@@ -16,3 +16,12 @@ func TestKnownSLIAccepts205(t *testing.T) {
 		fmt.Println("DEFECT-PRESENT SliceLossIndication.Unmarshal accepted PT 205")
 	}
 }
+
+func TestKnownREMBMantissaZero(t *testing.T) {
+	var p ReceiverEstimatedMaximumBitrate
+	// exponent 0, mantissa 0: the wire value is 0 * 2^0 = 0
+	err := p.Unmarshal([]byte{0x8f, 0xce, 0x00, 0x04, 0, 0, 0, 1, 0, 0, 0, 0, 'R', 'E', 'M', 'B', 0, 0x00, 0x00, 0x00})
+	if err == nil && p.Bitrate != 0 {
+		fmt.Println("DEFECT-PRESENT REMB mantissa 0 decoded to", p.Bitrate)
+	}
+}
